@@ -24,8 +24,8 @@ PROPS["C22"] = dict(
         "in a not-globally-reachable block => Err(MultiaddrNotSupported(addr)) and inner dial never "
         "called; address in no special block => inner dial called exactly once with the byte-identical "
         "address; globally-reachable carve-outs and N/A blocks are don't-care."),
-    bounds="address = [ip4|ip6](sym)/tcp(sym) or one of 6 non-IP-leading shapes; unwind 24 (covers the 20-byte ip6 multiaddr)",
-    outside="listen_on/poll forwarding; addresses with further components after /tcp; PortUse/role variation",
+    bounds="address = [ip4|ip6](sym)/tcp(sym) or one of 5 non-IP-leading shapes (empty, tcp-first, memory, udp/quic, p2p-circuit-first); unwind 24 (covers the 20-byte ip6 multiaddr)",
+    outside="DNS-first addresses (string component: no result in 40 min); listen_on/poll forwarding; addresses with further components after /tcp; PortUse/role variation",
     stubs=[TRACING], assumptions=[FORGET], hooks=[],
 )
 
